@@ -3,6 +3,7 @@ package rules
 import (
 	"fmt"
 	"go/token"
+	"go/types"
 
 	"cachelint/internal/core"
 
@@ -155,38 +156,41 @@ func c08S2(r *Run, rep *core.Report) {
 		rz := mm.Resize
 		rep.Fn(fn(rz))
 		nCopy := 0
-		core.Instrs(rz, func(in ssa.Instruction) {
-			c, ok := in.(*ssa.Call)
-			if !ok || core.Callee(c) != mm.Copy {
-				return
-			}
-			nCopy++
-			uses := 0
-			for _, ref := range *c.Referrers() {
-				if u, ok := ref.(ssa.CallInstruction); ok && (core.Callee(u) == mm.AddPlain || core.Callee(u) == mm.AddSize) {
-					args := u.Common().Args
-					if args[len(args)-1] == ssa.Value(c) {
-						uses++
-						fi := unpublishedAt(r, rz, args[0], ref, 0)
-						// the receiver must also be the table the entries were copied into
-						var dest ssa.Value
-						for i, p := range mm.Copy.Params {
-							if familyParam(r, mm.Copy, i) {
-								_ = p
-								dest = c.Call.Args[i]
+		rzFns := append([]*ssa.Function{mm.Resize}, mm.ResizeHelpers...)
+		for _, rz := range rzFns {
+			core.Instrs(rz, func(in ssa.Instruction) {
+				c, ok := in.(*ssa.Call)
+				if !ok || core.Callee(c) != mm.Copy {
+					return
+				}
+				nCopy++
+				uses := 0
+				for _, ref := range *c.Referrers() {
+					if u, ok := ref.(ssa.CallInstruction); ok && (core.Callee(u) == mm.AddPlain || core.Callee(u) == mm.AddSize) {
+						args := u.Common().Args
+						if args[len(args)-1] == ssa.Value(c) {
+							uses++
+							fi := unpublishedAt(r, rz, args[0], ref, 0)
+							// the receiver must also be the table the entries were copied into
+							var dest ssa.Value
+							for i, p := range mm.Copy.Params {
+								if familyParam(r, mm.Copy, i) {
+									_ = p
+									dest = c.Call.Args[i]
+								}
 							}
-						}
-						same := dest != nil && core.StripConv(dest) == core.StripConv(args[0])
-						rep.Check(fi.OK && same, "C08.S2", fn(rz)+" recount target", r.P.InstrPos(ref), "copied count added to the new, not yet published table the entries went to",
-							"copied count is added to a table that is published already or is not the copy's destination: "+fi.Why)
-						if ref.Block() != c.Block() {
-							rep.Fail("C08.S2", fn(rz)+" recount placement", r.P.InstrPos(ref), "the count of a copied bucket is not added in the same step as the copy")
+							same := dest != nil && core.StripConv(dest) == core.CounterOwner(args[0])
+							rep.Check(fi.OK && same, "C08.S2", fn(rz)+" recount target", r.P.InstrPos(ref), "copied count added to the new, not yet published table the entries went to",
+								"copied count is added to a table that is published already or is not the copy's destination: "+fi.Why)
+							if ref.Block() != c.Block() {
+								rep.Fail("C08.S2", fn(rz)+" recount placement", r.P.InstrPos(ref), "the count of a copied bucket is not added in the same step as the copy")
+							}
 						}
 					}
 				}
-			}
-			rep.Check(uses == 1, "C08.S2", fn(rz)+" recount once", r.P.InstrPos(in), "each copied bucket's count is added exactly once", fmt.Sprintf("the count returned by the bucket copy is added %d times to the new table's counter", uses))
-		})
+				rep.Check(uses == 1, "C08.S2", fn(rz)+" recount once", r.P.InstrPos(in), "each copied bucket's count is added exactly once", fmt.Sprintf("the count returned by the bucket copy is added %d times to the new table's counter", uses))
+			})
+		}
 		rep.MinCount("C08.S2", "copy call sites in "+fn(rz), nCopy, 1)
 		// clear hint: copies nothing
 		clearSpec, ok := hintSpecOf(r, mm, "Clear")
@@ -196,8 +200,16 @@ func c08S2(r *Run, rep *core.Report) {
 			reach := clearSpec.Reachable(rz)
 			copies := false
 			core.Instrs(rz, func(in ssa.Instruction) {
-				if c, ok := in.(ssa.CallInstruction); ok && core.Callee(c) == mm.Copy && reach[in.Block()] {
-					copies = true
+				if c, ok := in.(ssa.CallInstruction); ok && reach[in.Block()] {
+					cal := core.Callee(c)
+					if cal == mm.Copy {
+						copies = true
+					}
+					for _, h := range mm.ResizeHelpers {
+						if cal == h {
+							copies = true // the helper holds the copy loop
+						}
+					}
 				}
 			})
 			rep.Check(!copies, "C08.S2", fn(rz)+clearSpec.String(rz)+" copies nothing", r.P.Pos(rz.Pos()), "the clear hint installs a fresh zero-count table without copying", "the clear hint still copies entries into the new table: Clear would not empty the map and Count would not be 0")
@@ -244,7 +256,7 @@ func c08S3(r *Run, rep *core.Report) {
 			if !isCall || core.Callee(c) != mm.SumSize {
 				return
 			}
-			if a, isLoad := atomicLoadPath(c.Call.Args[0]); isLoad && a.Owner == mm.Name && a.Field == mm.TableF {
+			if a, isLoad := atomicLoadPath(core.CounterOwner(c.Call.Args[0])); isLoad && a.Owner == mm.Name && a.Field == mm.TableF {
 				ok = true
 			}
 		})
@@ -269,6 +281,11 @@ func c08S3(r *Run, rep *core.Report) {
 				// range form: init -1, test on i+1; indexed form: init 0
 				bound := loopBound(l, phi)
 				if c, isCall := bound.(*ssa.Call); isCall && core.IsBuiltinCall(c) == "len" {
+					if prm, isP := c.Call.Args[0].(*ssa.Parameter); isP && len(ss.Params) > 0 && prm == ss.Params[0] && step == 1 && (init == -1 || init == 0) {
+						if _, isSl := prm.Type().Underlying().(*types.Slice); isSl {
+							good = true // the receiver is the stripe slice itself
+						}
+					}
 					ld, isLd := c.Call.Args[0].(*ssa.UnOp)
 					if isLd {
 						a := core.Addr(ld.X)
@@ -375,7 +392,17 @@ func c08S4(r *Run, rep *core.Report) {
 			for _, site := range core.CallSitesOf(r.P.Funcs, h) {
 				n++
 				p := site.Parent()
-				ok := p == mm.Core || p == mm.Resize
+				ok := false
+				for _, m2 := range r.M.Maps {
+					if (p == m2.Core || p == m2.Resize) && (m2 == mm || m2.AddSize == mm.AddSize || m2.AddPlain == mm.AddPlain) {
+						ok = true // a counter type shared by both maps: the other map's analysed functions call the same helper
+					}
+					for _, h := range m2.ResizeHelpers {
+						if p == h && (m2 == mm || m2.AddPlain == mm.AddPlain) {
+							ok = true // the copy loop moved into a helper of resize (analysed with it)
+						}
+					}
+				}
 				rep.Check(ok, "C08.S4", fmt.Sprintf("%s called from %s", fn(h), fn(p)), r.P.InstrPos(site), "counter update inside a function whose pairing is analysed", "counter update in a function whose pairing with slot changes is not analysed (undecided)")
 			}
 		}
